@@ -33,6 +33,10 @@ pub enum BodySpec {
         known_len: bool,
         #[serde(default)]
         split: Option<u16>,
+        /// the reader fails with an I/O error after delivering that many of its bytes (mapped onto the
+        /// length): the app's body cannot be read, so nothing may reach the shell in its name
+        #[serde(default)]
+        fail_after: Option<u16>,
     },
     /// a typed value given to `body_json`: fields not in alphabetical order, an `f32` (by its bits),
     /// a nested struct, an option - things that do not survive a detour through `serde_json::Value`
@@ -105,6 +109,14 @@ impl From<Request<HttpRequest>> for CmdEffect {
     }
 }
 
+/// a reader whose every read is an I/O error
+struct FailingReader;
+impl futures_util::io::AsyncRead for FailingReader {
+    fn poll_read(self: std::pin::Pin<&mut Self>, _: &mut std::task::Context<'_>, _: &mut [u8]) -> std::task::Poll<std::io::Result<usize>> {
+        std::task::Poll::Ready(Err(std::io::Error::new(std::io::ErrorKind::ConnectionReset, "the body's source failed")))
+    }
+}
+
 fn body_of(b: &BodySpec) -> Option<HBody> {
     Some(match b {
         BodySpec::None => return None,
@@ -112,7 +124,14 @@ fn body_of(b: &BodySpec) -> Option<HBody> {
         BodySpec::Bytes(v) => HBody::from_bytes(v.clone()),
         BodySpec::Json(j) => HBody::from_json(&serde_json::from_str::<serde_json::Value>(j).unwrap()).unwrap(),
         BodySpec::Form(f) => HBody::from_form(f).unwrap(),
-        BodySpec::Reader { bytes, known_len, split } => {
+        BodySpec::Reader { bytes, known_len, fail_after: Some(k), .. } if !bytes.is_empty() => {
+            use futures_util::io::AsyncReadExt;
+            let len = if *known_len { Some(bytes.len()) } else { None };
+            // at least the last byte is never delivered
+            let k = *k as usize % bytes.len();
+            HBody::from_reader(futures_util::io::BufReader::new(futures_util::io::Cursor::new(bytes[..k].to_vec()).chain(FailingReader)), len)
+        }
+        BodySpec::Reader { bytes, known_len, split, .. } => {
             let len = if *known_len { Some(bytes.len()) } else { None };
             match split {
                 None => HBody::from_reader(futures_util::io::Cursor::new(bytes.clone()), len),
@@ -286,6 +305,18 @@ fn mime_eq(a: &str, b: &str) -> bool {
 
 /// Err((signature, explanation))
 pub fn judge(c: &Case) -> Result<(), (String, String)> {
+    if let BodySpec::Reader { fail_after: Some(_), bytes, .. } = &c.body {
+        if bytes.is_empty() {
+            return Ok(()); // (an empty body has nothing to fail on)
+        }
+        // the app's body cannot be read. What crux does then (today: it panics while building the request)
+        // is not C14's business; that a request goes to the shell with a body the app never specified is.
+        return match observed(c) {
+            Err(_) => Ok(()),
+            Ok(reqs) if reqs.is_empty() => Ok(()),
+            Ok(reqs) => Err(("failed-body-sent".into(), format!("the body's reader failed, yet a request with a body of {} bytes reached the shell (the app's body had {} bytes)", reqs[0].body.len(), bytes.len()))),
+        };
+    }
     let reqs = observed(c).map_err(|p| ("panic".to_string(), format!("building or sending the request panicked: {p}")))?;
     if reqs.len() != 1 {
         return Err(("effect-count".into(), format!("{} HTTP effects for one request", reqs.len())));
@@ -348,7 +379,7 @@ pub fn strategy() -> BoxedStrategy<Case> {
         2 => prop_oneof![Just(vec![]), prop::collection::vec(any::<u8>(), 1..10), prop::collection::vec(any::<u8>(), 5000..9000)].prop_map(BodySpec::Bytes),
         2 => json.prop_map(BodySpec::Json),
         2 => prop::collection::vec(("[a-zé]{1,4}", "[a-z &=é]{0,6}"), 0..3).prop_map(BodySpec::Form),
-        2 => (prop_oneof![prop::collection::vec(any::<u8>(), 0..12), prop::collection::vec(any::<u8>(), 1500..6000)], any::<bool>(), proptest::option::of(any::<u16>())).prop_map(|(bytes, known_len, split)| BodySpec::Reader { bytes, known_len, split }),
+        2 => (prop_oneof![prop::collection::vec(any::<u8>(), 0..12), prop::collection::vec(any::<u8>(), 1500..6000)], any::<bool>(), proptest::option::of(any::<u16>()), proptest::option::weighted(0.15, any::<u16>())).prop_map(|(bytes, known_len, split, fail_after)| BodySpec::Reader { bytes, known_len, split, fail_after }),
         2 => (any::<u32>(), "[a-zé\"]{0,5}", prop_oneof![any::<u32>(), Just(21.3f32.to_bits()), Just(0.1f32.to_bits()), Just(1e20f32.to_bits())], proptest::option::of(any::<bool>())).prop_map(|(zeta, alpha, mid, flag)| BodySpec::Typed { zeta, alpha, mid, flag }),
     ];
     let ct = prop_oneof![Just("application/xml".to_string()), Just("text/csv; charset=utf-8".to_string()), Just("image/png".to_string())];
@@ -370,7 +401,7 @@ pub fn strategy() -> BoxedStrategy<Case> {
 
 fn reproducer(sig: &str) -> Option<Case> {
     match sig {
-        "body-of-unknown-length-lost" => Some(Case { capability_api: false, method: 2, url: "http://example.com/".into(), headers: vec![], body: BodySpec::Reader { bytes: b"abc".to_vec(), known_len: false, split: None }, content_type_before: None, content_type_after: None, query: None, generic: true }),
+        "body-of-unknown-length-lost" => Some(Case { capability_api: false, method: 2, url: "http://example.com/".into(), headers: vec![], body: BodySpec::Reader { bytes: b"abc".to_vec(), known_len: false, split: None, fail_after: None }, content_type_before: None, content_type_after: None, query: None, generic: true }),
         _ => None,
     }
 }
@@ -384,12 +415,13 @@ pub fn main(mode: Mode) {
         let nt = distinct_names.len() >= 2 && c.headers.iter().any(|(_, v)| v.len() >= 2) && !matches!(c.body, BodySpec::None) && (!c.url.is_ascii() || matches!(&c.body, BodySpec::Str(s) if !s.is_ascii()) || matches!(&c.body, BodySpec::Bytes(b) if !b.is_ascii()));
         let labels = [
             if c.capability_api { "api:capability" } else { "api:command" },
-            match c.body {
+            match &c.body {
                 BodySpec::None => "body:none",
                 BodySpec::Str(_) => "body:string",
                 BodySpec::Bytes(_) => "body:bytes",
                 BodySpec::Json(_) => "body:json",
                 BodySpec::Form(_) => "body:form",
+                BodySpec::Reader { fail_after: Some(_), bytes, .. } if !bytes.is_empty() => "body:reader-that-fails",
                 BodySpec::Reader { .. } => "body:reader",
                 BodySpec::Typed { .. } => "body:typed-json",
             },
